@@ -38,7 +38,7 @@ AtomFrom(c) ==
   IN IF k <= 5 /\ (f \in {"i", "j"} \/ k <= 1)   \* < <= > >= are defined for numbers only
      THEN IF k <= 1 THEN [t |-> "cmp", f |-> f, op |-> CmpOps[k + 1], v |-> vs[D(c2, n) + 1]]
                     ELSE [t |-> "cmp", f |-> f, op |-> CmpOps[k + 1], v |-> vs[D(c2, n - 1) + 2]]   \* no null operand for < <= > >=
-     ELSE IF k \in {6, 7} \/ (f = "b" /\ k <= 7) \/ (f = "s" /\ k \in {2, 3})
+     ELSE IF k \in {6, 7} \/ (f = "b" /\ k <= 7) \/ (f = "s" /\ k \in {2, 3}) \/ (f \in {"i", "j"} /\ k = 8)
      THEN [t |-> "in", f |-> f, op |-> IF k % 2 = 0 THEN "_in" ELSE "_nin",
            vs |-> {vs[j] : j \in {x \in 1..n : D(R(c2, 2 ^ (x - 1)), 2) = 1}}]
      ELSE IF f = "s"
@@ -56,6 +56,12 @@ FilterFrom(sh, a1, a2, a3) ==
     [] sh = 9 -> [t |-> "or", args |-> <<[t |-> "and", args |-> <<AtomFrom(a1), AtomFrom(a2)>>], AtomFrom(a3)>>]
     [] sh = 10 -> [t |-> "not", arg |-> [t |-> "or", args |-> <<AtomFrom(a1), AtomFrom(a2)>>]]
     [] sh = 11 -> [t |-> "or", args |-> <<AtomFrom(a1), AtomFrom(a2), AtomFrom(a3)>>]
+    \* sh 12, 13: a membership filter with several values on a numeric field (always ordered by that field, see QueryFrom):
+    \* the shape in which an index on the field serves the filter and the order at once
+    [] sh \in {12, 13} -> LET f == IF D(a1, 2) = 0 THEN "i" ELSE "j"
+                              vs == ValSeq(f)
+                              drop == D(R(a1, 2), Len(vs)) + 1 IN
+                          [t |-> "in", f |-> f, op |-> "_in", vs |-> {vs[x] : x \in (1..Len(vs)) \ {drop, 1 + D(R(a1, 64), Len(vs))}}]
 
 OrderFrom(c) ==
   LET nk == D(c, 4)                           \* 0, 1, 2, 2 keys
@@ -68,12 +74,12 @@ OrderFrom(c) ==
 \* one case in four of those whose filter is a single condition on a scalar field is ordered by that very field (the
 \* shape in which one index can serve the filter and the order at once)
 OrderFor(flt, oc) ==
-  IF D(R(oc, 256), 4) = 0 /\ flt.t \in {"cmp", "in"} /\ flt.f \in {"s", "i", "b", "j"}
+  IF (D(R(oc, 256), 4) = 0 \/ (flt.t = "in" /\ D(R(oc, 256), 2) = 0)) /\ flt.t \in {"cmp", "in"} /\ flt.f \in {"s", "i", "b", "j"}
   THEN <<[f |-> flt.f, desc |-> D(R(oc, 16), 2) = 1]>>
   ELSE OrderFrom(oc)
 QueryFrom(kc, sh, a1, a2, a3, oc, lc) ==
   LET flt == FilterFrom(sh, a1, a2, a3) IN
-  IF kc <= 5 THEN [kind |-> "list", flt |-> flt, order |-> OrderFor(flt, oc), limit |-> D(lc, 4), offset |-> D(R(lc, 4), 3),
+  IF kc <= 5 THEN [kind |-> "list", flt |-> flt, order |-> (IF sh >= 12 THEN <<[f |-> flt.f, desc |-> D(R(oc, 16), 2) = 1]>> ELSE OrderFor(flt, oc)), limit |-> D(lc, 4), offset |-> D(R(lc, 4), 3),
                    fn |-> "", af |-> "", gf |-> "", gl |-> 0, go |-> 0]
   ELSE IF kc <= 8 THEN [kind |-> "agg", flt |-> flt, order |-> <<>>, limit |-> 0, offset |-> 0,
                         fn |-> <<"_count", "_sum", "_avg", "_min", "_max">>[D(oc, 5) + 1], af |-> "i", gf |-> "", gl |-> 0, go |-> 0]
@@ -86,7 +92,7 @@ RE(n) == RandomElement(0..(n + step - step))
 Init == step = 0 /\ case = <<>>
 Next ==
   \E dc \in {[k \in 1..NDocs |-> RE(11231)]} :
-  \E kc \in {RE(9)}, sh \in {RE(11)} :
+  \E kc \in {RE(9)}, sh \in {RE(13)} :
   \E a1 \in {RE(Big)}, a2 \in {RE(Big)}, a3 \in {RE(Big)} :
   \E oc \in {RE(1023)}, lc \in {RE(11)} :
     LET docs == {DocFrom(k, dc[k]) : k \in 1..NDocs}
